@@ -2,6 +2,7 @@
 mod js;
 mod rng;
 mod gen;
+mod synth_tz;
 mod proj;
 mod ops;
 mod ops_date;
